@@ -867,6 +867,29 @@ impl<'a, 'b, 'ast> Visit<'ast> for Collector<'a, 'b> {
                     self.edits.push((sp.start, sp.end, text));
                 }
             }
+            Expr::MethodCall(c) if rw.for_iter && c.method == "min" && c.args.is_empty() && matches!(&*c.receiver, Expr::MethodCall(m) if m.method == "filter_map" && m.args.len() == 1 && matches!(&m.args[0], Expr::Closure(cl) if cl.inputs.len() == 1)) => {
+                // R28 (option for_iter=1): `E.filter_map(|P| B).min()` -> the loop keeping the first minimal value (Iterator::min)
+                if let Expr::MethodCall(m) = &*c.receiver { if let Expr::Closure(cl) = &m.args[0] {
+                    let idx = rw.loop_idx.get();
+                    rw.loop_idx.set(idx + 1);
+                    let a = e.span().byte_range().start;
+                    let b = cl.body.span().byte_range().start;
+                    rw.loop_headers.borrow_mut().push(rw.src[a..b].split_whitespace().collect::<Vec<_>>().join(" "));
+                    let it = rw.render_expr(&m.receiver);
+                    let (pat, binds) = deref_pats(&rw.src[cl.inputs[0].span().byte_range()]);
+                    let body = rw.render_expr(&cl.body);
+                    let inv = rw.section(&format!("loop {idx}")).map(|t| mark(t)).unwrap_or_default();
+                    let before = rw.section(&format!("loop {idx} before")).map(|t| format!("proof {{ //@p\n{}\n}} //@p\n", mark(t))).unwrap_or_default();
+                    let end = rw.section(&format!("loop {idx} end")).map(|t| format!("proof {{ //@p\n{}\n}} //@p\n", mark(t))).unwrap_or_default();
+                    let after = rw.section(&format!("loop {idx} after")).map(|t| format!("proof {{ //@p\n{}\n}} //@p\n", mark(t))).unwrap_or_default();
+                    let elem = rw.section(&format!("loop {idx} elem")).map(|t| format!(": Option<{}>", t.trim())).unwrap_or_default();
+                    let braw = rw.section(&format!("loop {idx} begin-raw")).map(|t| format!("{}\n", mark(t))).unwrap_or_default();
+                    let text = format!("({{ let mut __it{idx} = ({it}).into_iter(); let mut __min{idx}{elem} = None;\n{before}loop\n{inv}\n{{ match __it{idx}.next() {{ Some({pat}) => {{ {binds}{braw}let __r{idx} = {body}; match __r{idx} {{ Some(__v) => {{ __min{idx} = match __min{idx} {{ None => Some(__v), Some(__m) => if __v < __m {{ Some(__v) }} else {{ Some(__m) }} }}; }} None => {{}} }}\n{end} }} None => {{ break; }} }} }}\n{after} __min{idx} }})");
+                    rw.count("R28");
+                    let sp = e.span().byte_range();
+                    self.edits.push((sp.start, sp.end, text));
+                } }
+            }
             Expr::MethodCall(c) if rw.for_iter && c.method == "collect" && c.args.is_empty() && matches!(&*c.receiver, Expr::MethodCall(m) if m.method == "filter_map" && m.args.len() == 1 && matches!(&m.args[0], Expr::Closure(cl) if cl.inputs.len() == 1)) => {
                 // R25 (option for_iter=1): `E.filter_map(|P| B).collect()` into a Vec -> the loop
                 //   `{ let mut it = E.into_iter(); let mut out = Vec::new(); loop { match it.next() { Some(P) => { match B { Some(v) => out.push(v), None => {} } } None => break } } out }`
